@@ -1174,10 +1174,12 @@ def rule_combinators(chk: Check):
                     body_ok = False
         except AnalysisError:
             body_ok = False
-    chk.require(rets == ["return self._tokens[self._index]"] and len(loops) == 1 and
+    from .bufeval import arbitrate as _arb_peek
+    _arb_peek(chk, rets == ["return self._tokens[self._index]"] and len(loops) == 1 and
                 norm_stmt(loops[0].test) in ("self._index == len(self._tokens)", "len(self._tokens) == self._index",
                                              "self._index >= len(self._tokens)") and body_ok, R, "Tokenizer.peek", f.where,
-                "`peek` must fetch (and append) tokens only while the index is at the end of the cache and return the token at the index")
+                "`peek` must fetch (and append) tokens only while the index is at the end of the cache and return the token at the index",
+                which="peek")
     # left recursion by seed growing: the wrapper, evaluated from source around the rule  r: r '+' 'n' | 'n'  on every token stream
     # of length <= 6 over {n, +, x}, must return the left-nested parse of the longest prefix n(+n)*, leave the position right after
     # it (at the start on failure), cache exactly that, answer a second call from the cache, and do the same when tracing
